@@ -63,6 +63,7 @@ type lockAnalysis struct {
 	lockAlias  map[string]string              // class of a *sync.Mutex field -> class of the mutex it points to
 	retMemo    map[string]map[string]bool
 	finalRound bool
+	params     map[*types.Var]bool // function parameters: their value also comes from callers
 }
 
 type funcDeclInfo struct {
@@ -805,7 +806,7 @@ func (la *lockAnalysis) valueTypes(p *packages.Package, e ast.Expr, depth int) m
 		return la.valueTypes(p, x.X, depth)
 	case *ast.Ident:
 		if v, ok := p.TypesInfo.ObjectOf(x).(*types.Var); ok {
-			if ft, ok := la.fieldTypes[v]; ok && len(ft) > 0 {
+			if ft, ok := la.fieldTypes[v]; ok && len(ft) > 0 && !la.params[v] {
 				add(ft)
 				return out
 			}
@@ -1032,7 +1033,35 @@ func (la *lockAnalysis) ownerOf(f *types.Var) string {
 	return ""
 }
 
+func (la *lockAnalysis) collectParams() {
+	la.params = map[*types.Var]bool{}
+	for _, p := range la.pkgs {
+		for _, f := range p.Syntax {
+			ast.Inspect(f, func(n ast.Node) bool {
+				var ft *ast.FuncType
+				switch x := n.(type) {
+				case *ast.FuncDecl:
+					ft = x.Type
+				case *ast.FuncLit:
+					ft = x.Type
+				}
+				if ft != nil && ft.Params != nil {
+					for _, fld := range ft.Params.List {
+						for _, nm := range fld.Names {
+							if v, ok := p.TypesInfo.ObjectOf(nm).(*types.Var); ok {
+								la.params[v] = true
+							}
+						}
+					}
+				}
+				return true
+			})
+		}
+	}
+}
+
 func (la *lockAnalysis) run() {
+	la.collectParams()
 	la.nameLiterals()
 	for _, p := range la.pkgs {
 		for _, f := range p.Syntax {
